@@ -73,6 +73,25 @@ class Adapter:
             return ("affinity", (0, 1))
         raise ValueError(kind)
 
+    def adopted(self, e):
+        """Every third refusal happens in a program whose own PID is the recycled one (a forked child
+        that was given the dead process's PID and inherited the object): it is refused all the same."""
+        import contextlib
+        w = self.w
+        self.nadopt = getattr(self, "nadopt", 0) + 1
+        if e["res"] != "NSP" or e["pid"] not in w.procs or e["pid"] <= 0 or self.nadopt % 3:
+            return contextlib.nullcontext()
+
+        @contextlib.contextmanager
+        def cm():
+            old = w.caller_pid
+            w.caller_pid = e["pid"]
+            try:
+                yield
+            finally:
+                w.caller_pid = old
+        return cm()
+
     def outcome(self, fn):
         ps = self.ps
         try:
@@ -91,7 +110,13 @@ class Adapter:
         nk, ns = len(w.kill_log), len(w.set_log)
         if op == "k_spawn":
             w.next_inc = e["inc"]
-            w.spawn(e["pid"], start=e["start"] * TICK, ppid=0)
+            pr = w.spawn(e["pid"], start=e["start"] * TICK, ppid=0)
+            # every other incarnation is multi-threaded: thread IDs are IDs of the same namespace,
+            # and nothing may be delivered to them either
+            if (e["pid"] + e["inc"]) % 2:
+                from harness.simkernel import Thread
+                pr.threads = {e["pid"]: Thread(pr.comm, 1, 1), 700 + 10 * e["pid"]: Thread(b"w1", 1, 1),
+                              701 + 10 * e["pid"]: Thread(b"w2", 1, 1)}
             return None
         if op == "k_exit":
             w.exit(e["pid"])
@@ -124,7 +149,8 @@ class Adapter:
             got = v if res == "ok" else res
         elif op == "signal":
             p = self.objs[e["o"]]
-            got, v = self.outcome(lambda: self.sigcall(p, e["sig"]))
+            with self.adopted(e):
+                got, v = self.outcome(lambda: self.sigcall(p, e["sig"]))
             new = [x for x in w.kill_log[nk:] if x[2] is not None]  # delivered ones
             exp = [(e["pid"], e["sig"], e["toInc"])] if e["res"] == "ok" else []
             if [tuple(x) for x in new] != exp:
@@ -136,7 +162,8 @@ class Adapter:
             box = {}
             self.nset = getattr(self, "nset", 0) + 1
             kw = bool(self.nset % 2)
-            got, v = self.outcome(lambda: box.setdefault("v", self.setcall(p, e["kind"], kw)))
+            with self.adopted(e):
+                got, v = self.outcome(lambda: box.setdefault("v", self.setcall(p, e["kind"], kw)))
             if e["res"] == "NSP" and got == "NSP":
                 # a refused setting stays refused however the value is spelled
                 got, v = self.outcome(lambda: self.setcall(p, e["kind"], not kw))
